@@ -327,6 +327,8 @@ def check_units(rep, units, version, var):
                         bad.add('second-model')
                         break
         rep.extra['paths_' + tag] = n
+        if n == 0:
+            rep.harness_errors.append('inp/%s: no feasible path (vacuous harness)' % tag)
         if not bad and n:
             rep.reach('inp/' + tag, cons)
     finally:
@@ -344,30 +346,31 @@ def symbolise(V, wn):
         a, b = sorted((v * lo, v * hi))
         return V.real(name, a - pad, b + pad)
     for n, p in wn.pipes():
-        p._length = band('len_' + n, p._length)
-        p._diameter = band('diam_' + n, p._diameter)
-        p._roughness = band('rough_' + n, p._roughness)
+        p._length = band('P_len_' + n, p._length)
+        p._diameter = band('P_diam_' + n, p._diameter)
+        p._roughness = band('P_rough_' + n, p._roughness)
         if p._minor_loss:
-            p._minor_loss = band('minor_' + n, p._minor_loss)
+            p._minor_loss = band('P_minor_' + n, p._minor_loss)
     for n, j in wn.junctions():
-        j._elevation = band('elev_' + n, j._elevation, pad=1.0)
+        j._elevation = band('J_elev_' + n, j._elevation, pad=1.0)
         for k, ts in enumerate(j.demand_timeseries_list):
             if ts._base:
-                ts._base = band('dem_%s_%d' % (n, k), ts._base)
+                ts._base = band('J_dem_%s_%d' % (n, k), ts._base)
     for n, t in wn.tanks():
-        t._elevation = band('elev_' + n, t._elevation, pad=1.0)
+        t._elevation = band('T_elev_' + n, t._elevation, pad=1.0)
         lo_, hi_, init = float(t._min_level), float(t._max_level), float(t._init_level)
         span = hi_ - lo_
-        t._min_level = V.real('min_' + n, lo_, lo_ + 0.1 * span)
-        t._max_level = V.real('max_' + n, hi_ - 0.1 * span, hi_)
-        t._init_level = V.real('init_' + n, lo_ + 0.2 * span, hi_ - 0.2 * span)
-        t._diameter = band('diam_' + n, t._diameter)
+        if span > 0 and lo_ + 0.25 * span <= init <= hi_ - 0.25 * span:
+            t._min_level = V.real('T_min_' + n, lo_, lo_ + 0.1 * span)
+            t._max_level = V.real('T_max_' + n, hi_ - 0.1 * span, hi_)
+            t._init_level = V.real('T_init_' + n, lo_ + 0.2 * span, hi_ - 0.2 * span)
+        t._diameter = band('T_diam_' + n, t._diameter)
         t._head = t._init_level + t._elevation
         t._prev_head = t._head
     for n, r in wn.reservoirs():
-        r.head_timeseries._base = band('head_' + n, r.head_timeseries._base, pad=1.0)
+        r.head_timeseries._base = band('R_head_' + n, r.head_timeseries._base, pad=1.0)
     for n, v in wn.valves():
-        v.diameter = band('diam_' + n, v.diameter)
+        v.diameter = band('V_diam_' + n, v.diameter)
 
 
 def check_example(rep, fname, units):
@@ -438,6 +441,8 @@ def check_example(rep, fname, units):
                                      sample='%d numeric attributes unchanged by the second cycle' % len(claims)):
                         bad.add('second-model')
         rep.extra['paths_' + tag] = n
+        if n == 0:
+            rep.harness_errors.append('inp/%s: no feasible path (vacuous harness)' % tag)
         if not bad and n:
             rep.reach('inp/' + tag, cons)
     finally:
@@ -543,7 +548,7 @@ def run(rep, only=None):
         for u in (UNITS if rep.tier == 'thorough' else ['GPM', 'CMH']):
             tasks.append(('%s-%s' % (tv['name'], u), check_units, (u, 2.2, tv)))
     if rep.tier == 'thorough':
-        for f, us in (('Net3.inp', ['GPM', 'LPS', 'CMH']), ('Net1.inp', ['GPM', 'MLD']), ('Net6.inp', ['GPM'])):
+        for f, us in (('Net3.inp', ['GPM', 'LPS', 'CMH']), ('Net1.inp', ['GPM', 'MLD']), ('Net2.inp', ['CFS'])):
             for u in us:
                 tasks.append(('example-%s-%s' % (f, u), check_example, ('/repo/examples/networks/' + f, u)))
     run_parallel(rep, tasks)
